@@ -343,3 +343,99 @@ package lfs
 //@   assumed
 //@   props C01 C04 C14
 //@   modifies fresh
+
+// C20, settings half: a filter.lfs.* value is written only under --force, or
+// when the value currently set *in the same configuration scope* is empty or
+// one of the values earlier git-lfs versions wrote; any other differing value
+// is reported as a conflict and left alone.  Uninstall removes the section in
+// the selected scope only.
+//@ func shouldReset
+//@   props C20
+//@   pure
+//@   loop 1 invariant true
+//@   ensures result ==> len(value) == 0 || inlist(upgradeables, value)
+//@   ensures len(value) == 0 ==> result
+//@ func (*Attribute).set
+//@   props C20
+//@   requires @inv gitConfig != nil && opt != nil
+//@   at call (*git.Configuration).SetLocal:1 assert arg1__ == key && arg2__ == value && opt.Local && (opt.Force || cfg_find("local", "", key) == "" || inlist(upgradeables, cfg_find("local", "", key)))
+//@   at call (*git.Configuration).SetWorktree:1 assert arg1__ == key && arg2__ == value && opt.Worktree && (opt.Force || cfg_find("worktree", "", key) == "" || inlist(upgradeables, cfg_find("worktree", "", key)))
+//@   at call (*git.Configuration).SetSystem:1 assert arg1__ == key && arg2__ == value && opt.System && (opt.Force || cfg_find("system", "", key) == "" || inlist(upgradeables, cfg_find("system", "", key)))
+//@   at call (*git.Configuration).SetFile:1 assert arg1__ == opt.File && arg2__ == key && arg3__ == value && (opt.Force || cfg_find("file", opt.File, key) == "" || inlist(upgradeables, cfg_find("file", opt.File, key)))
+//@   at call (*git.Configuration).SetGlobal:1 assert arg1__ == key && arg2__ == value && !opt.Local && !opt.Worktree && !opt.System && opt.File == "" && (opt.Force || cfg_find("global", "", key) == "" || inlist(upgradeables, cfg_find("global", "", key)))
+//@   ensures result == nil && !opt.Force && opt.Local && cfg_find("local", "", key) != "" && !inlist(upgradeables, cfg_find("local", "", key)) ==> cfg_find("local", "", key) == value
+//@ func (*Attribute).Uninstall
+//@   props C20
+//@   requires @inv opt != nil && opt.GitConfig != nil
+//@   at call (*git.Configuration).UnsetLocalSection:1 assert arg1__ == a.Section && opt.Local
+//@   at call (*git.Configuration).UnsetGlobalSection:1 assert arg1__ == a.Section && !opt.Local && !opt.Worktree && !opt.System && opt.File == ""
+//@   at call (*git.Configuration).UnsetFileSection:1 assert arg1__ == opt.File && arg2__ == a.Section
+//@ func (*Attribute).Install
+//@   props C20
+//@   requires @inv opt != nil && a.Properties != nil
+//@   at call (*lfs.Attribute).set:1 assert arg1__ == opt.GitConfig && arg5__ == opt && arg3__ == v
+//@ func (*github.com/git-lfs/git-lfs/v3/git.Configuration).FindGlobal
+//@   assumed
+//@   props C20
+//@   pure
+//@   ensures result == cfg_find("global", "", key)
+//@ func (*github.com/git-lfs/git-lfs/v3/git.Configuration).SetGlobal
+//@   assumed
+//@   props C20
+//@   modifies fresh
+//@ func (*github.com/git-lfs/git-lfs/v3/git.Configuration).UnsetGlobalSection
+//@   assumed
+//@   props C20
+//@   modifies fresh
+//@ func (*github.com/git-lfs/git-lfs/v3/git.Configuration).FindSystem
+//@   assumed
+//@   props C20
+//@   pure
+//@   ensures result == cfg_find("system", "", key)
+//@ func (*github.com/git-lfs/git-lfs/v3/git.Configuration).SetSystem
+//@   assumed
+//@   props C20
+//@   modifies fresh
+//@ func (*github.com/git-lfs/git-lfs/v3/git.Configuration).UnsetSystemSection
+//@   assumed
+//@   props C20
+//@   modifies fresh
+//@ func (*github.com/git-lfs/git-lfs/v3/git.Configuration).FindLocal
+//@   assumed
+//@   props C20
+//@   pure
+//@   ensures result == cfg_find("local", "", key)
+//@ func (*github.com/git-lfs/git-lfs/v3/git.Configuration).SetLocal
+//@   assumed
+//@   props C20
+//@   modifies fresh
+//@ func (*github.com/git-lfs/git-lfs/v3/git.Configuration).UnsetLocalSection
+//@   assumed
+//@   props C20
+//@   modifies fresh
+//@ func (*github.com/git-lfs/git-lfs/v3/git.Configuration).FindWorktree
+//@   assumed
+//@   props C20
+//@   pure
+//@   ensures result == cfg_find("worktree", "", key)
+//@ func (*github.com/git-lfs/git-lfs/v3/git.Configuration).SetWorktree
+//@   assumed
+//@   props C20
+//@   modifies fresh
+//@ func (*github.com/git-lfs/git-lfs/v3/git.Configuration).UnsetWorktreeSection
+//@   assumed
+//@   props C20
+//@   modifies fresh
+//@ func (*github.com/git-lfs/git-lfs/v3/git.Configuration).FindFile
+//@   assumed
+//@   props C20
+//@   pure
+//@   ensures result == cfg_find("file", file, key)
+//@ func (*github.com/git-lfs/git-lfs/v3/git.Configuration).SetFile
+//@   assumed
+//@   props C20
+//@   modifies fresh
+//@ func (*github.com/git-lfs/git-lfs/v3/git.Configuration).UnsetFileSection
+//@   assumed
+//@   props C20
+//@   modifies fresh
